@@ -59,7 +59,7 @@ def P(obj, path=()):
 
 
 def is_int(v):
-    return v[0] in ('c', 's', 'r', 'l', 'top', 'xk', 'ox')
+    return v[0] in ('c', 's', 'r', 'l', 'top', 'xk', 'ox', 'shr', 'byte')
 
 
 def pure_byte_sym(v, symr):
@@ -114,8 +114,11 @@ def rng(v, symr, t=None):
         return (min(v[1]), max(v[1]))
     if k == 'r':
         return (v[1], v[2])
-    if k in ('xk', 'ox'):
+    if k in ('xk', 'ox', 'byte'):
         return (0, 255)
+    if k == 'shr':
+        r = rng(v[1], symr)
+        return None if r is None else (r[0] >> v[2], r[1] >> v[2])
     if k == 'l':
         lo = hi = v[1]
         for s, c in v[2]:
@@ -146,15 +149,25 @@ def fit(v, t, symr):
         return v
     if not is_int(v):
         return TOP
-    if k in ('xk', 'ox'):
+    if k in ('xk', 'ox', 'byte'):
         tr = type_range(t)
         return v if tr[0] <= 0 and tr[1] >= 255 else R(max(tr[0], 0), min(tr[1], 255))
+    if k == 'shr':
+        tr = type_range(t)
+        r = rng(v, symr)
+        if r is not None and tr[0] <= r[0] and r[1] <= tr[1]:
+            return v
+        if not t.get('sg') and t['bits'] == 8 and v[2] % 8 == 0:
+            return ('byte', v[1], v[2] // 8)
+        return TOP
     tr = type_range(t)
     r = rng(v, symr, None)
     if r is None:
         return TOP
     if tr[0] <= r[0] and r[1] <= tr[1]:
         return v
+    if k == 'l' and r[0] >= 0 and r[1] < (1 << 64) and not t.get('sg') and t['bits'] == 8:
+        return ('byte', v, 0)      # low byte of an unwrapped non-negative linear value
     if t.get('k') == 'bool':
         return R(0, 1)
     # may wrap: if the whole range shifts by one modulus keep an interval
@@ -172,7 +185,7 @@ def join(a, b, symr=None):
     symr = symr or {}
     if a[0] == 'uninit' or b[0] == 'uninit':
         return TOP
-    if a[0] in ('xk', 'ox') or b[0] in ('xk', 'ox'):
+    if a[0] in ('xk', 'ox', 'shr', 'byte') or b[0] in ('xk', 'ox', 'shr', 'byte'):
         if is_int(a) and is_int(b) and a != TOP and b != TOP:
             ra, rb = rng(a, symr), rng(b, symr)
             if ra and rb:
@@ -272,6 +285,16 @@ def binop(op, a, b, symr, t=None):
             return a
         if b[0] == 'ox' and a == ('c', 0):
             return b
+    if a[0] in ('shr', 'byte') or b[0] in ('shr', 'byte'):
+        if op == '&' and b == ('c', 0xff) and a[0] == 'shr' and a[2] % 8 == 0:
+            return ('byte', a[1], a[2] // 8)
+        if op == '&' and b == ('c', 0xff) and a[0] == 'byte':
+            return a
+        ra_, rb_ = rng(a, symr), rng(b, symr)
+        if ra_ is None or rb_ is None:
+            return TOP
+        a = R(*ra_) if a[0] in ('shr', 'byte') else a
+        b = R(*rb_) if b[0] in ('shr', 'byte') else b
     if a[0] in ('xk', 'ox') or b[0] in ('xk', 'ox'):
         ra_, rb_ = rng(a, symr), rng(b, symr)
         a = R(*ra_) if a[0] in ('xk', 'ox') else a
@@ -305,6 +328,8 @@ def binop(op, a, b, symr, t=None):
             rl = rng(lo_part, symr)
             if rl is not None and 0 <= rl[0] and rl[1] < k:
                 return L(pa[0] // k, {s: c // k for s, c in hi_part.items()})
+            if a[0] == 'l' and ra[1] < (1 << 64):
+                return ('shr', a, b[1])
         if ra is not None and ra[0] >= 0:
             return R(ra[0] >> b[1], ra[1] >> b[1])
         return TOP
@@ -385,6 +410,14 @@ def compare(op, a, b, symr, t=None):
         return compare_ptr(op, a, b)
     if not is_int(a) or not is_int(b):
         return None
+    if a[0] in ('shr', 'byte') or b[0] in ('shr', 'byte'):
+        if a == b:
+            return op in ('==', '<=', '>=')
+        ra_, rb_ = rng(a, symr), rng(b, symr)
+        if ra_ is None or rb_ is None:
+            return None
+        a = R(*ra_) if a[0] in ('shr', 'byte') else a
+        b = R(*rb_) if b[0] in ('shr', 'byte') else b
     if a[0] in ('xk', 'ox') or b[0] in ('xk', 'ox'):
         if a == b and op in ('==', '<=', '>='):
             return True
@@ -472,6 +505,8 @@ def show(v):
         s = ' + '.join(('%d*%s' % (c, n) if c != 1 else n) for n, c in v[2])
         return s + (' + %d' % v[1] if v[1] else '')
     if k == 'p': return '&%s%s' % (v[1], ''.join('[%s]' % (show(x) if isinstance(x, tuple) else x) for x in v[2]))
+    if k == 'shr': return '(%s>>%d)' % (show(v[1]), v[2])
+    if k == 'byte': return 'byte%d(%s)' % (v[2], show(v[1]))
     if k == 'xk': return '(%s^0x%02x)' % (v[1], v[2])
     if k == 'ox': return 'OR{' + ','.join('%s^%s' % p for p in sorted(v[1])) + '}'
     if k == 'xk': return '(%s^0x%02x)' % (v[1], v[2])
